@@ -67,6 +67,8 @@ type Case struct {
 	// whose numbers are all in the 4-byte form (every value of the case is a 30-bit float then;
 	// rotations outside [0,1] are legal in a file).
 	ViaBytes bool    `json:"via_bytes,omitempty"`
+	// FlagsHigh (with ViaBytes): bits 2 and up of the file's flags number (ignored by the format).
+	FlagsHigh uint32 `json:"flags_high,omitempty"`
 	// Lead: the path starts here and reaches Start by a line, so the arc is not the first segment
 	// of its sub-path (the point may lie a fraction of a pixel from where the arc ends: a shape
 	// that an arc nearly, but not exactly, closes).
@@ -106,7 +108,12 @@ func arcStream(c Case) []byte {
 	b = append(b, num(c.RX)...)
 	b = append(b, num(c.RY)...)
 	b = append(b, num(c.Rot)...)
-	b = append(b, flags<<1)
+	if hb := c.FlagsHigh; hb != 0 {
+		// only the two low bits of the flags number mean anything
+		b = append(b, spec.EncodeNaturalW(uint32(flags)|hb<<2, 4)...)
+	} else {
+		b = append(b, flags<<1)
+	}
 	b = append(b, num(c.To[0])...)
 	b = append(b, num(c.To[1])...)
 	return append(b, 0xe1)
@@ -517,6 +524,10 @@ func genConstructive(t *rapid.T) Case {
 	} else {
 		delta = math.Pi
 		k = rapid.Float64Range(0.05, 0.95).Draw(t, "shrink")
+		if rapid.IntRange(0, 3).Draw(t, "tiny") == 0 {
+			// radii that are next to nothing beside the chord (but not zero): scaled up all the same
+			k = math.Pow(10, -rapid.Float64Range(3, 7).Draw(t, "tinyexp"))
+		}
 	}
 	if rapid.Bool().Draw(t, "neg") {
 		delta = -delta
@@ -681,6 +692,9 @@ func TestArcs(t *testing.T) {
 			c.To = [2]ops.F32{trunc30(c.To[0]), trunc30(c.To[1])}
 			c.RX, c.RY, c.Rot = trunc30(c.RX), trunc30(c.RY), trunc30(c.Rot)
 			c.Want = nil // constructed for the values before truncation: the independent F.6.5 reference decides
+			if rapid.Bool().Draw(t, "flagshigh") {
+				c.FlagsHigh = uint32(rapid.SampledFrom([]int{1, 2, 3, 1 << 10, 1<<27 - 1}).Draw(t, "flagshighbits"))
+			}
 		}
 		c.Prelude = rapid.IntRange(0, 4).Draw(t, "prelude") == 0
 		c.PreludeRel = c.Prelude && rapid.Bool().Draw(t, "preluderel")
@@ -724,6 +738,9 @@ func TestArcs(t *testing.T) {
 		}
 		if c.ViaBytes {
 			labels = append(labels, "through-Decode-from-an-assembled-stream")
+			if c.FlagsHigh != 0 {
+				labels = append(labels, "file-whose-arc-flags-number-has-high-bits-set")
+			}
 			if c.Rot < 0 || c.Rot > 1 {
 				labels = append(labels, "file-with-a-rotation-outside-[0,1]")
 			}
